@@ -297,6 +297,52 @@ class Ctx:
     def obligation_broken(self, name, detail):
         self.broken.append({"name": name, "detail": detail})
 
+    # -- sharding over worker processes: a worker fills a Ctx of its own; the parent merges what it found
+    def summary(self):
+        return {"evaluations": self.evaluations, "nontrivial": list(self.nontrivial), "samples": self.samples, "dist": self.dist, "validated": self.validated,
+                "disagreements": self.disagreements[:50], "n_disagreements": len(self.disagreements), "violations": self.violations, "broken": self.broken,
+                "model_calls": self._model.calls if self._model else 0}
+
+    def merge(self, s):
+        self.evaluations += s["evaluations"]
+        self.nontrivial.update(tuple(x) if isinstance(x, list) else x for x in s["nontrivial"])
+        for smp in s["samples"]:
+            if len(self.samples) < 6:
+                self.samples.append(smp)
+        for k, v in s["dist"].items():
+            self.count(k, v)
+        self.validated += s["validated"]
+        self.disagreements.extend(s["disagreements"])
+        for k, v in s["violations"].items():
+            self.violations.setdefault(k, v)
+        self.broken.extend(s["broken"])
+        self.extra["worker_model_calls"] = self.extra.get("worker_model_calls", 0) + s["model_calls"]
+
+
+def _worker(args):
+    prop, tier, seed, module_name, func_name, job, idx = args
+    import importlib
+    import traceback
+    mod = importlib.import_module(module_name)
+    w = Ctx(prop, tier, (seed * 1000003 + idx) & 0x7FFFFFFF)
+    try:
+        getattr(mod, func_name)(w, *job)
+    except Exception:  # noqa: BLE001
+        w.obligation_broken("harness-crash", traceback.format_exc())
+    finally:
+        if w._model:
+            w._model.close()
+    return w.summary()
+
+
+def run_parallel(ctx, module_name, func_name, jobs, workers=14):
+    """Runs func(worker_ctx, *job) for every job in worker processes (each with its own model process) and merges the findings."""
+    import multiprocessing as mp
+    args = [(ctx.prop, ctx.tier, ctx.seed, module_name, func_name, job, i) for i, job in enumerate(jobs)]
+    with mp.get_context("fork").Pool(min(workers, max(1, len(jobs)))) as pool:
+        for s in pool.imap_unordered(_worker, args, chunksize=1):
+            ctx.merge(s)
+
 
 def _jsonable(v):
     if isinstance(v, (bytes, bytearray)):
